@@ -10,7 +10,7 @@ EXTENDS TraceBase, F64
 
 P == INSTANCE Piecewise
 
-TraceInit == l = 1
+TraceInit == TallyInit /\ l = 1
 
 ResEnds(r) == [k \in 1..Len(r) |-> r[k][1]]
 Pts(e) == [k \in 1..(Len(e.xs) + Len(e.f) + Len(e.g)) |->
